@@ -1,8 +1,12 @@
 """C09 - the statement budget is exact, complete and monotone."""
 
+import collections
 import copy
+import decimal
+import fractions
 import functools
 import json
+import math
 import os
 import re
 
@@ -82,16 +86,30 @@ ASSUMPTIONS = [
     'runs on an options object with a history are compared with the Lean answer for count = 0 (the shared driver builds the start state '
     'with count := 0; that execute gives the same answer for every other start counter is C09.own_budget, proved by rfl); runs that start '
     'from globals an earlier run left behind (script function values) are checked with the implementation-side oracles only',
+    'family datax (stream data-repeated: dataFilter / dataCalculatedField / dataJoin called repeatedly in one run with absent / fresh / '
+    'shared variables objects, call-backs that include, make nested data calls or run library call-backs): the data functions are '
+    'neither in the Lean host nor in the reference interpreter - implementation-side oracles only (started statements counted through '
+    'the log: every statement logs first, function / include statements are announced by a log statement of their own); global writes '
+    'of a script included inside a data call-back with a variables argument go to the merged copy of the globals and are lost when '
+    'the call ends - the oracles compare limited with unlimited runs of the same program, so this does not matter to them',
+    'stream limit-forms: maxStatements given as float, Fraction, Decimal, int subclass, bool, and an options object of a dict subclass / '
+    'OrderedDict are host-only values the Lean model cannot express (its limit is a Nat): implementation-side oracles only; a form is read '
+    'as the int floor(value) (the statement speaks about a positive limit L; for a non-integral x "at most x statements start" is at '
+    'most floor(x)), the rendering of the value inside the parentheses of the budget error (50.0, 11/2, True) is not compared; '
+    '0 < x < 1 must let no statement start; 0.0, -0.0, False, Fraction(0), Decimal(0) and infinity are run on terminating programs only '
+    'and must give the unlimited outcome; None, strings, NaN and negative limits are not run (the statement says nothing about them)',
 ]
 TRUSTED = ['reference statement interpreter with its own statement counter (props/C08.py RefStatements + includes and their name resolution), '
            'the static statement count of straight-line programs, the fully-logged '
            'program generator (an include / function statement is announced by a log statement of its own in the rinc family), '
            'the tail call-back generator (class Tail: every statement logs first, function statements first, include / function statements '
            'announced in the premarks mode), '
+           'the repeated-data-call generator (datax_case: every statement logs first, include / function statements announced), the host '
+           'limit forms table (LIMIT_FORMS / UNLIMITED_FORMS / BELOW_ONE_FORMS: value of each form), '
            'the logFn snapshot probe and the options-history driver (run_impl with a prep: earlier runs, copied options, stale '
            'counter; the reference run on a brand-new options dict) in harness/props/C09.py (the property oracles)']
 
-FULLY = ('fl', 'data', 'session', 'rinc', 'tailcb')     # families of fully-logged programs (globals snapshot at every log line; started
+FULLY = ('fl', 'data', 'session', 'rinc', 'tailcb', 'datax')     # families of fully-logged programs (globals snapshot at every log line; started
                                               # statements are counted through the log where case['nfun'] is not None)
 CAP = 3000                      # "unlimited-ish": a program that starts more than CAP statements counts as non-terminating
 CORPUS = os.path.join(os.path.dirname(os.path.dirname(os.path.abspath(__file__))), 'corpus', 'C09.jsonl')
@@ -657,6 +675,213 @@ def session_case(rng):
 
 
 # ---------------------------------------------------------------------------------------------------------------------
+# data functions called REPEATEDLY in one run, crossed with what their call-backs do (family 'datax', implementation only)
+#   A data function that gets a variables argument evaluates its expression on a COPY of the options (merged globals); the
+#   statements its call-backs start are counted on the copy and carried back when the call ends.  Whatever that copy holds -
+#   a counter, a reference to the caller's options - must never outlive the call, and an include statement / a nested data call
+#   / a library call-back executed INSIDE the call-back must count on the live counter of the copy.  The family crosses
+#     vars   - none / a fresh objectNew(...) per call / ONE variables object passed to every call (aliasing: the same object
+#              twice) / two shared objects in random order (A B A, A A B ...) / one shared EMPTY object / a mix
+#     body   - what the script function named in the expression does: plain / an include statement / a call of a function whose
+#              body has an include statement / a nested data call (same or other variables object) / a library call-back
+#              (arrayIndexOf with a script predicate that may include) / an include of a script that calls a data function
+#     expr   - ff(x) / ff(x + k) / no call at all (x > k) / a library call-back inside the expression
+#     shape  - how the call is repeated: straight-line with 0-2 statements between the calls / in a jump-level loop (also an
+#              endless one) / inside a function called repeatedly / inside a match function / in a recursive function
+#     scale  - rows 0,1,2,3,9,10,11,16,17 (thorough: 64,65), calls 1,2,3,9,10,11,16,17,64,65,100,101,128,129 (256, 1000 thorough)
+#              as far as the run stays below the cap
+#   Every statement logs first; function and include statements are announced by systemLog('>') (premarks): started statements
+#   are counted through the log.  dataFilter / dataCalculatedField / dataJoin are not in the Lean host and not in the reference
+#   interpreter: implementation-side oracles only.
+# ---------------------------------------------------------------------------------------------------------------------
+
+DATAX_SHAPES = ['straight', 'straight', 'jump-loop', 'jump-loop', 'function', 'callback', 'recursion']
+DATAX_BODIES = ['plain', 'include', 'include-via-call', 'nested-data', 'library-callback', 'include-nested-data']
+DATAX_VARS = ['none', 'inline', 'shared', 'shared', 'shared-two', 'shared-empty', 'mixed']
+DATAX_EXPRS = ['call', 'call', 'call-k', 'no-call', 'library']
+DATAX_FUNCS = ['filter', 'calc', 'join-left', 'join-right']
+SCALE = [0, 1, 2, 9, 10, 11, 16, 17, 64, 65, 100, 101, 128, 129, 256, 1000]
+
+
+def data_call(rng, which, data, expr, var):
+    tail = '' if var is None else ', ' + var
+    if which == 'filter':
+        return f"dataFilter({data}, '{expr}'{tail})"
+    if which == 'calc':
+        return f"dataCalculatedField({data}, 'y', '{expr}'{tail})"
+    flag = rng.choice(['true', 'false'])
+    if which == 'join-left':
+        return f"dataJoin({data}, {data}, '{expr}'" + (rng.choice([')', f', null, {flag})']) if var is None else f', null, {flag}, {var})')
+    return f"dataJoin({data}, {data}, 'x', '{expr}', {flag}{tail})"
+
+
+def datax_case(rng, shape=None, body=None, vmode=None, expr=None, ncalls=None, nrows=None, endless=False, big=False):
+    shape = shape or rng.choice(DATAX_SHAPES)
+    body = body or rng.choice(DATAX_BODIES)
+    vmode = vmode or rng.choice(DATAX_VARS)
+    gen = FL(rng, prefix='t')
+    head, files, kinds = [], {}, set()
+    defined = set()
+    if nrows is None:
+        nrows = rng.choice([0, 1, 1, 2, 2, 3, 3, 9] if not big else [1, 2, 10, 11, 16, 17])
+    if ncalls is None:
+        ncalls = rng.choice([1, 2, 2, 2, 3, 3, 4])
+    tags = ['datax', 'shape:' + shape, 'body:' + body, 'vars:' + vmode, f'rows:{nrows}', f'calls:{ncalls}']
+
+    def define(name, params, lines):
+        if name not in defined:
+            defined.add(name)
+            head.extend([PRE, f'function {name}({", ".join(params)}):'] + ['    ' + line for line in lines] + ['endfunction'])
+        return name
+
+    def rows(n):
+        return 'arrayNew(' + ', '.join(f"objectNew('x', {rng.randint(0, 4)})" for _ in range(n)) + ')'
+
+    def pick_var(mode=None):
+        mode = mode or vmode
+        if mode == 'mixed':
+            mode = rng.choice(['none', 'inline', 'shared', 'shared', 'shared-empty'])
+        if mode == 'none':
+            return None
+        if mode == 'inline':
+            return f"objectNew('k', {rng.randint(0, 2)})"
+        if mode == 'shared-two':
+            return rng.choice(['vv', 'vw'])
+        return 've' if mode == 'shared-empty' else 'vv'
+
+    def simple(g, lo, hi):
+        lines = []
+        for _ in range(rng.randint(lo, hi)):
+            lines.append(g.mark() if rng.random() < 0.6 else f'{rng.choice(["a", "b", "uc"])} = {g.wrap(g.value(["a", "b", "uc"], 1))}')
+        return lines
+
+    def include_lines(with_data=False):
+        if 'u.bare' not in files:
+            gu = FL(rng, prefix='u')
+            text = simple(gu, 0 if with_data else 1, 2)
+            if with_data:
+                define('gg', ['v'], [gen.mark(), f'return {gen.wrap("v > 1")}'])
+                text.insert(rng.randint(0, len(text)), f'w = {gu.wrap(data_call(rng, rng.choice(DATAX_FUNCS), "d2", "gg(x)", pick_var()))}')
+                if rng.random() < 0.5:
+                    text += simple(gu, 1, 1)
+            files['u.bare'] = '\n'.join(text)
+        return [PRE, "include 'u.bare'"]
+
+    def callback(name, param, test, kind):
+        """a script function for a data expression / a match function: logs, does `kind`, returns `test`"""
+        lines = [gen.mark()] if rng.random() < 0.7 else []
+        if kind == 'include':
+            lines += include_lines()
+        elif kind == 'include-nested-data':
+            lines += include_lines(True)
+        elif kind == 'include-via-call':
+            define('fi', ['n'], ([gen.mark()] if rng.random() < 0.5 else []) + include_lines() + [f'return {gen.wrap("n")}'])
+            lines.append(f'w = {gen.wrap(f"fi({param})")}')
+        elif kind == 'nested-data':
+            define('gg', ['v'], [gen.mark(), f'return {gen.wrap("v > 1")}'])
+            lines.append(f'w = {gen.wrap(data_call(rng, rng.choice(DATAX_FUNCS), "d2", "gg(x)", pick_var()))}')
+        elif kind == 'library-callback':
+            inner = rng.choice(['plain', 'plain', 'include'])
+            kinds.add('predicate:' + inner)
+            callback('pd', 'v', 'v == 9', inner)
+            lines.append(f'w = {gen.wrap(f"arrayIndexOf(arrayNew({param}, 1, 2), pd)")}')
+        if rng.random() < 0.3:
+            lines.append(gen.mark())
+        lines.append(f'return {gen.wrap(test)}')
+        return define(name, [param], lines)
+
+    callback('ff', 'v', f'v > {rng.randint(0, 3)}', body)
+    vv, vw = gen.wrap("objectNew('k', 1)"), gen.wrap("objectNew('k', 2)")
+    setup = [f'd = {gen.wrap(rows(nrows))}', f'd2 = {gen.wrap(rows(rng.randint(1, 2)))}', f'vv = {vv}', f'vw = {vw}',
+             f've = {gen.wrap("objectNew()")}']
+
+    def site():
+        kind = expr or rng.choice(DATAX_EXPRS)
+        kinds.add('expr:' + kind)
+        if kind == 'call':
+            text = 'ff(x)'
+        elif kind == 'call-k':
+            text = 'ff(x + k)'
+        elif kind == 'no-call':
+            text = 'x > k'
+        else:
+            callback('pl', 'v', 'v == 9', 'plain')
+            text = 'arrayIndexOf(arrayNew(x, 1), pl) >= 0 || ff(x)'
+        which = rng.choice(DATAX_FUNCS)
+        kinds.add('fn:' + which)
+        return f'r = {gen.wrap(data_call(rng, which, "d", text, pick_var()))}'
+
+    out = []
+    if shape == 'straight':
+        for _ in range(ncalls):
+            out.append(site())
+            out += simple(gen, 0 if rng.random() < 0.2 else 1, 2)
+    elif shape == 'jump-loop':
+        lt, ld = gen.label('LT'), gen.label('LD')
+        test = 'false' if endless else f'!(i1 < {ncalls})'
+        out += [f'i1 = {gen.wrap("0")}', f'jumpif ({gen.wrap("true")}) {lt}', f'{lt}:', f'jumpif ({gen.wrap(test)}) {ld}']
+        if rng.random() < 0.4:
+            out.append('    ' + gen.mark())
+        out.append('    ' + site())
+        if rng.random() < 0.3:
+            out += ['    ' + line for line in simple(gen, 1, 1)] + ['    ' + site()]
+        out += [f'    i1 = {gen.wrap("i1 + 1")}', f'jumpif ({gen.wrap("true")}) {lt}', f'{ld}:']
+        if endless:
+            tags.append('nonterm')
+    elif shape == 'function':
+        define('fr', ['n'], simple(gen, 0, 1) + [site()] + simple(gen, 0, 1) + [f'return {gen.wrap("n")}'])
+        for _ in range(ncalls):
+            out.append(f'r = {gen.wrap(f"fr({rng.randint(0, 3)})")}')
+            out += simple(gen, 0, 2)
+    elif shape == 'callback':
+        define('fp', ['v'], simple(gen, 0, 1) + [site(), f'return {gen.wrap("v == 9")}'])
+        out.append(f'r = {gen.wrap("arrayIndexOf(arrayNew(" + ", ".join(str(rng.randint(0, 4)) for _ in range(max(1, ncalls))) + "), fp)")}')
+    else:
+        lx = gen.label('LX')
+        define('fq', ['n'], [site(), f'jumpif ({gen.wrap("!(n > 0)")}) {lx}', f'    m = {gen.wrap("fq(n - 1)")}',
+                             f'jumpif ({gen.wrap("true")}) {lx}', f'{lx}:', f'return {gen.wrap("n")}'])
+        out.append(f'r = {gen.wrap(f"fq({max(0, min(ncalls, 40) - 1)})")}')
+    out += simple(gen, 0, 2)
+    return {'family': 'datax', 'text': '\n'.join(head + setup + out), 'files': files or None, 'globals': {'a': 0, 'b': 1, 'uc': 0},
+            'nfun': None, 'premarks': True, 'nomodel': True, 'noref': True, 'tags': tags + sorted(kinds)}
+
+
+def datax_directed(rng):
+    """every call-back body x {shared, fresh, no} variables object, every shape and every expression kind with ONE shared variables
+    object; the fillings (rows, constants, statements between the calls) are random"""
+    cases = []
+    for body in DATAX_BODIES:
+        for vmode in ('shared', 'inline', 'none'):
+            cases.append(datax_case(rng, shape=rng.choice(['straight', 'jump-loop']), body=body, vmode=vmode, expr='call',
+                                    ncalls=rng.choice([2, 3]), nrows=rng.choice([1, 2])))
+    for shape in sorted(set(DATAX_SHAPES)):
+        cases.append(datax_case(rng, shape=shape, body='plain', vmode='shared', ncalls=rng.choice([2, 3]), nrows=rng.choice([1, 2])))
+    for kind in sorted(set(DATAX_EXPRS)):
+        cases.append(datax_case(rng, shape='straight', body='plain', vmode=rng.choice(['shared', 'shared-two']), expr=kind, ncalls=3, nrows=2))
+    cases.append(datax_case(rng, shape='jump-loop', body='plain', vmode='shared', expr='no-call', nrows=1, endless=True))
+    cases.append(datax_case(rng, shape='jump-loop', body='include', vmode='inline', expr='call', nrows=1, endless=True))
+    return cases
+
+
+def datax_scaled(rng, quick):
+    """one case on the SCALE axis: many data calls (a loop / a match function over a long array / recursion) or many rows"""
+    cap = 1200 if quick else 2400
+    if rng.random() < 0.7:
+        ncalls = rng.choice([s for s in SCALE if 9 <= s <= (129 if quick else 1000)])
+        shape = rng.choice(['jump-loop', 'jump-loop', 'callback', 'recursion', 'straight'] if ncalls <= 17 else ['jump-loop', 'jump-loop', 'callback'])
+        nrows = rng.choice([n for n in (0, 1, 2, 3) if ncalls * (8 * n + 8) <= cap] or [0])
+        body = rng.choice(DATAX_BODIES) if ncalls * (16 * nrows + 8) <= cap else 'plain'
+    else:
+        nrows = rng.choice([s for s in SCALE if 9 <= s <= (17 if quick else 65)])
+        ncalls = rng.choice([1, 2, 3])
+        shape = rng.choice(DATAX_SHAPES)
+        body = rng.choice(DATAX_BODIES) if nrows <= 17 else 'plain'
+    case = datax_case(rng, shape=shape, body=body, ncalls=ncalls, nrows=nrows)
+    case['tags'].append('scaled')
+    return case
+
+
+# ---------------------------------------------------------------------------------------------------------------------
 # the budget expires INSIDE a library call-back and nothing runs afterwards (family 'tailcb')
 #   The budget error is raised by the statement loop of a script function that was not called by the script but by LIBRARY (or
 #   host) code - the compare function of arraySort, the match function of arrayIndexOf / arrayLastIndexOf, the target of a
@@ -1036,7 +1261,7 @@ def prep_tags(prep):
     return tags
 
 
-def run_impl(model, case, limit, prep=None, reuse=True):
+def run_impl(model, case, limit, prep=None, reuse=True, container=None):
     """-> outcome dict (shape of progen.run_impl) + 'snaps': the user-visible globals at each log line (the first SNAP_MAX; runs
     with a prep: the first SNAP_PREP - the same bound for the runs that are compared, so prefix and equality keep their meaning)"""
     snap_max = SNAP_MAX if prep is None else SNAP_PREP
@@ -1089,6 +1314,8 @@ def run_impl(model, case, limit, prep=None, reuse=True):
         options.pop('maxStatements', None)
         if limit is not None:
             options['maxStatements'] = limit
+        if container is not None and CONTAINERS[container] is not None:
+            options = CONTAINERS[container](options)          # the host's options object is a dict of another class
         probe[0] = case['family'] in FULLY
         out['result'] = progen.value_to_wire(c08.guarded(lambda: runtime.execute_script(model, options)), lib)
     except runtime.BareScriptRuntimeError as exc:
@@ -1380,7 +1607,7 @@ def check_program(ctx, st, case, rng, driver):
         nonterm = EXCEEDED.match(unl.get('error', '')) is not None
         total = None if nonterm else unl['count']
         # L = 0 (really unlimited) is only run for programs known to stop: the implementation must never be able to hang the check
-        limits = ([] if nonterm else [0]) + limits_for(rng, total, ctx.quick, (60 if ctx.quick else 120) if case['family'] == 'rinc' else (100 if ctx.quick else 200) if case['family'] == 'tailcb' else None)
+        limits = ([] if nonterm else [0]) + limits_for(rng, total, ctx.quick, (60 if ctx.quick else 120) if case['family'] in ('rinc', 'datax') else (100 if ctx.quick else 200) if case['family'] == 'tailcb' else None)
         if case.get('limits') and not nonterm:
             limits = list(case['limits'])
         if not nonterm:
@@ -1633,9 +1860,190 @@ def stream_tail(ctx, n, rounds, driver=True, name='tail-callback'):
     run_cases(ctx, st, name, cases, rng, driver)
 
 
+def stream_datax(ctx, n, nscaled, name='data-repeated'):
+    rng = ctx.rng(name)
+    st = ctx.stream(name,
+                    'fully-logged programs that call dataFilter / dataCalculatedField / dataJoin (left and right expression) REPEATEDLY in '
+                    'one run (family datax, implementation-side oracles only: the data functions are neither in the Lean host nor in the '
+                    'reference interpreter): variables argument absent / a fresh object per call / the SAME object passed to every call '
+                    '(aliasing) / two shared objects in random order / a shared empty object / a mix; the script function named in the '
+                    'expression is plain / executes an include statement / calls a function whose body has an include statement / makes a '
+                    'nested data call / runs a library call-back (arrayIndexOf with a script predicate that may include) / includes a script '
+                    'that calls a data function; expression ff(x), ff(x + k), x > k (no call), a library call-back inside the expression; '
+                    'the call repeated straight-line with 0-2 statements in between, in a jump-level loop (also endless), inside a function '
+                    'called repeatedly, inside a match function, in a recursive function; directed part: every body x {shared, fresh, no} '
+                    'variables, every shape and expression kind with a shared variables object, two endless loops; SCALE part: 9, 10, 11, '
+                    '16, 17, 64, 65, 100, 101, 128, 129 (thorough: 256, 1000) calls or 9, 10, 11, 16, 17 (thorough: 64, 65) rows; every limit '
+                    'L in 1..N+2 for N <= 60 (thorough 120), sampled above, L = 0, and on options objects with a history (as in stream budget); '
+                    'every statement logs first and function / include statements are announced by a log statement: oracles of stream '
+                    'budget - aborted iff N > L with the exact text and count L+1, identical for L >= N and L = 0, log / global-snapshot '
+                    'prefix, started statements counted through the log (= L at an abort, = statementCount of a complete run); '
+                    'non-trivial = L within 2 of N or the run is aborted')
+    cases = datax_directed(rng) + [datax_case(rng) for _ in range(n)] + [datax_scaled(rng, ctx.quick) for _ in range(nscaled)]
+    run_cases(ctx, st, name, cases, rng, False)
+
+
+# ---------------------------------------------------------------------------------------------------------------------
+# host forms of the limit (stream 'limit-forms').  maxStatements is a host value: an int, but also a float (a limit read from
+# JSON, computed by a script, written 1e3 as the library writes its own default 1e9), a Fraction / Decimal (a configuration
+# layer), an int subclass, a bool; the options object may be a dict of another class.  A positive limit of any of these forms
+# bounds the run exactly like the equal int; a non-integral x >= 1 like floor(x); 0 < x < 1 lets no statement start; 0.0, -0.0,
+# False, Fraction(0), Decimal(0) and infinity are "unlimited".  None of these values exists in the Lean model (its limit is a
+# Nat): implementation-side oracles only.  The text in parentheses of the budget error is how the host value prints (50.0,
+# 11/2, True) - the property names the error, not that rendering, so it is read as the equal int.
+# ---------------------------------------------------------------------------------------------------------------------
+
+class _Limit(int):
+    """an int subclass (what an IntEnum member or a wrapped configuration integer is to the runtime)"""
+
+
+class _Options(dict):
+    """a dict subclass (options built by a host framework)"""
+
+
+LIMIT_FORMS = {
+    'int': int,
+    'float': float,
+    'float-half': lambda L: L + 0.5,
+    'fraction': fractions.Fraction,
+    'fraction-half': lambda L: fractions.Fraction(2 * L + 1, 2),
+    'decimal': decimal.Decimal,
+    'decimal-half': lambda L: decimal.Decimal(L) + decimal.Decimal('0.5'),
+    'int-subclass': _Limit,
+    'bool': lambda L: True,                                  # only for L = 1
+}
+UNLIMITED_FORMS = {'float-zero': 0.0, 'negative-zero': -0.0, 'false': False, 'fraction-zero': fractions.Fraction(0),
+                   'decimal-zero': decimal.Decimal(0), 'int-subclass-zero': _Limit(0), 'infinity': math.inf}
+BELOW_ONE_FORMS = {'float-below-one': 0.5, 'fraction-below-one': fractions.Fraction(1, 3), 'decimal-below-one': decimal.Decimal('0.25')}
+CONTAINERS = {'dict': None, 'dict-subclass': _Options, 'ordered-dict': collections.OrderedDict}
+FORM_EXCEEDED = re.compile(r'^Exceeded maximum script statements \([^()]*\)$')
+
+FORMS_LOOP = """function pd(v):
+    systemLog('p1')
+    return if(systemLog('p2'), null, v > 1000)
+endfunction
+vals = if(systemLog('t1'), null, arrayNew(1, 2, 3))
+i = if(systemLog('t2'), null, 0)
+jumpif (if(systemLog('t3'), null, true)) LT
+LT:
+jumpif (if(systemLog('t4'), null, %s)) LD
+    r = if(systemLog('t5'), null, arrayIndexOf(vals, pd))
+    i = if(systemLog('t6'), null, i + 1)
+jumpif (if(systemLog('t7'), null, true)) LT
+LD:
+systemLog('t8')"""
+
+
+def forms_directed():
+    return [{'family': 'fl', 'text': FORMS_LOOP % '!(i < 140)', 'files': None, 'globals': {}, 'nfun': 1, 'scale': True,
+             'tags': ['directed', 'loop-with-call-backs']},
+            {'family': 'fl', 'text': FORMS_LOOP % 'false', 'files': None, 'globals': {}, 'nfun': 1, 'tags': ['directed', 'endless', 'nonterm']},
+            {'family': 'fl', 'text': "systemLog('t1')\nsystemLog('t2')\nsystemLog('t3')", 'files': None, 'globals': {}, 'nfun': 0,
+             'tags': ['directed', 'straight']}]
+
+
+def form_value(form, limit):
+    if form in UNLIMITED_FORMS:
+        return UNLIMITED_FORMS[form]
+    if form in BELOW_ONE_FORMS:
+        return BELOW_ONE_FORMS[form]
+    return LIMIT_FORMS[form](limit)
+
+
+def form_norm(out, limit, form):
+    """the outcome with the budget error written as under the equal int (see the section comment)"""
+    if form != 'int' and FORM_EXCEEDED.match(out.get('error', '')):
+        return dict(out, error=f'Exceeded maximum script statements ({limit})')
+    return out
+
+
+def form_oracles(case, model, unl, unl_snaps, limit, form, out, snaps):
+    """limit: the int the form stands for (floor of a non-integral value; 0 for the unlimited forms)"""
+    if form in BELOW_ONE_FORMS:
+        if 'hostexc' in out:
+            return [('no-host-exception', None, out['hostexc'])]
+        if not FORM_EXCEEDED.match(out.get('error', '')) or out['log'] or out['count'] != 1:
+            return [('positive-limit-below-one-starts-nothing', {'error': 'Exceeded maximum script statements', 'log': [], 'count': 1}, out)]
+        return []
+    return budget_oracles(case, model, unl, unl_snaps, limit, form_norm(out, limit, form), snaps)
+
+
+def stream_limit_forms(ctx, n, name='limit-forms'):
+    rng = ctx.rng(name)
+    st = ctx.stream(name,
+                    'HOST FORMS OF THE LIMIT (implementation-side oracles only: the limit of the Lean model is a Nat, host-only values '
+                    'cannot be expressed there): fully-logged programs (3 hand-built: a 1400-statement loop with call-backs, the same loop '
+                    'endless, straight-line; generated: jump-level programs with loops / recursion / call-backs / endless loops, repeated '
+                    'includes, repeated data calls) run with maxStatements = L given as int, float (L.0), float L+0.5, Fraction(L), '
+                    'Fraction(L+1/2), Decimal(L), Decimal(L+0.5), an int subclass, True (L = 1), in an options object that is a dict, a dict '
+                    'subclass or an OrderedDict; L in {1, 2, N-1, N, N+1, 2 samples} (the long loop: 1, 2, 9, 10, 11, 16, 17, 64, 65, 100, '
+                    '101, 128, 129, 256, 1000; endless programs: 1, 2, 7 and a sample); oracles of stream budget with the form read as the '
+                    'int floor(value): aborted iff N > L with count L+1 (the error text in parentheses is the host rendering of the value '
+                    'and is not compared), identical outcome for L >= N, log / global-snapshot prefix, started statements counted through '
+                    'the log = L at an abort; 0.0, -0.0, False, Fraction(0), Decimal(0), int-subclass 0 and infinity: identical to the '
+                    'unlimited run (terminating programs only); 0.5, Fraction(1/3), Decimal(0.25): aborted before the first statement; '
+                    'non-trivial = every case with a form other than int, or L within 2 of N')
+    parser = fw.impl()['parser']
+    cases = forms_directed()
+    for ix in range(n):
+        cases.append([fl_case, rinc_case, datax_case, fl_case, include_case][ix % 5](rng))
+    failed = set()       # forms that already let a terminating program run on: not tried on endless programs (the watchdog would fire each time)
+    for case in sorted(cases, key=lambda c: 'nonterm' in c['tags']):
+        if c08.HANGS[0] >= 3:
+            ctx.notes.append('stream stopped: the implementation did not stop under maxStatements in 3 runs')
+            break
+        model = parser.parse_script(case['text'])
+        fully = case['family'] in FULLY
+        unl, unl_snaps = run_impl(model, case, CAP)
+        if 'hostexc' in unl:
+            continue
+        nonterm = EXCEEDED.match(unl.get('error', '')) is not None
+        total = None if nonterm else unl['count']
+        if nonterm:
+            limits = sorted({1, 2, 7, rng.randint(8, 200)})
+        elif case.get('scale'):
+            limits = [s for s in SCALE if 0 < s <= total + 1] + [total - 1, total, total + 1]
+        else:
+            limits = sorted(l for l in {1, 2, total - 1, total, total + 1, rng.randint(1, max(1, total)), rng.randint(1, max(1, total))} if l > 0)
+        runs = []
+        for limit in limits:
+            forms = ['float'] + rng.sample([f for f in LIMIT_FORMS if f not in ('float', 'bool')], 4) + (['bool'] if limit == 1 else [])
+            runs += [(limit, form) for form in forms]
+        runs += [(0, form) for form in BELOW_ONE_FORMS]
+        if not nonterm:
+            runs += [(0, form) for form in UNLIMITED_FORMS]
+        for limit, form in runs:
+            if nonterm and form in failed:
+                continue
+            container = rng.choice(sorted(CONTAINERS))
+            out, snaps = run_impl(model, case, form_value(form, limit), container=container)
+            aborted = bool(FORM_EXCEEDED.match(out.get('error', '')))
+            st.case(case_key(case) + [form, limit, container],
+                    nontrivial=form != 'int' or nonterm or abs(limit - total) <= 2,
+                    tags=['form:' + form, 'container:' + container, 'aborted' if aborted else 'error' if 'error' in out else 'completed',
+                          'family:' + case['family']] + (case['tags'] if (limit, form) == runs[-1] else []))
+            for oracle, expected, actual in form_oracles(case, model, unl, unl_snaps, limit, form, out, snaps if fully else None):
+                failed.add(form)
+                ctx.witness(oracle, {'case': case, 'limit': limit, 'form': form, 'container': container}, expected, actual)
+
+
+def replay_form(witness):
+    inp = witness['input']
+    case = inp['case']
+    model = fw.impl()['parser'].parse_script(case['text'])
+    unl, unl_snaps = run_impl(model, case, CAP)
+    out, snaps = run_impl(model, case, form_value(inp['form'], inp['limit']), container=inp.get('container'))
+    if witness['oracle'] == 'run-stops-within-budget':
+        return out.get('hostexc', '').startswith('Hang')
+    bad = form_oracles(case, model, unl, unl_snaps, inp['limit'], inp['form'], out, snaps if case['family'] in FULLY else None)
+    return any(b[0] == witness['oracle'] for b in bad)
+
+
 def streams(ctx):
-    stream_budget(ctx, ctx.scale(260, 4000))
+    stream_budget(ctx, ctx.scale(260, 3500))          # thorough: 3500 (was 4000) - the time went to the two streams below
     stream_tail(ctx, ctx.scale(40, 1000), ctx.scale(1, 5))
+    stream_datax(ctx, ctx.scale(30, 220), ctx.scale(6, 24))
+    stream_limit_forms(ctx, ctx.scale(15, 80))
 
 
 def disagreement_known(d, known):
@@ -1650,6 +2058,8 @@ def replay(witness):
     inp = witness['input']
     if not isinstance(inp, dict) or not isinstance(inp.get('case'), dict):
         return False
+    if 'form' in inp:
+        return replay_form(witness)
     # first as the check ran it - after the earlier runs of the same case in this process -, then the run alone
     if (inp.get('before') or inp.get('before_prep')) and replay_once(witness, True):
         return True
@@ -1731,7 +2141,11 @@ LEVEL_TEXT = ('Theorems about the Lean mirror of the runtime (one counter in the
               'statements counted through the log and statically; programs whose last started statement is inside a script function '
               'that library or host code calls back (arraySort compare functions, arrayIndexOf / arrayLastIndexOf match functions, '
               'partial targets, functions in data expressions, host functions; under 0-2 enclosing functions, call-backs and includes, '
-              'nothing running afterwards) under every limit 1..N+2: the budget error must reach the host from every one of them. A run does not depend on the counter the state holds when it starts '
+              'nothing running afterwards) under every limit 1..N+2: the budget error must reach the host from every one of them. Data functions called repeatedly in one run (variables argument absent / fresh / the same object every time; call-backs that '
+              'include, call functions that include, make nested data calls or run library call-backs; in loops, functions, match '
+              'functions and recursion; 9..129 calls or 9..17 rows on a scale axis) under every limit, and the limit in its host forms '
+              '(float, Fraction, Decimal, int subclass, bool, non-integral and below-one values, zero forms and infinity, options objects of '
+              'other dict classes) are checked with implementation-side oracles only. A run does not depend on the counter the state holds when it starts '
               '(own_budget, own_budget_session), tied to the code by running every program on options objects with a history (earlier '
               'runs on the same dict - completed, aborted, failed, other limits -, copied dicts, host-provided statementCount, kept or '
               'reset globals, debug, no maxStatements key, two-script sessions whose second script calls the functions of the first): '
